@@ -166,4 +166,22 @@ theorem lookup_of_mem (d : AList κ ν) (h : (keys d).Nodup) (e : κ × ν) (he 
       simp only [lookup, hk, ↓reduceIte]
       exact ih h.2 h'
 
+
+theorem nodup_keys_set (d : AList κ ν) (x : κ) (v : ν) (h : (keys d).Nodup) : (keys (set d x v)).Nodup := by
+  cases hl : lookup d x with
+  | some w => rw [keys_set_of_mem d x v (by rw [hl]; rfl)]; exact h
+  | none =>
+    rw [keys_set_of_not_mem d x v hl]
+    have hx : x ∉ keys d := by
+      intro hm
+      have := (lookup_isSome_iff_mem_keys d x).2 hm
+      rw [hl] at this; cases this
+    exact List.nodup_append.2 ⟨h, by simp, by intro a ha b hb; simp at hb; subst hb; intro hab; exact hx (hab ▸ ha)⟩
+
+theorem mem_keys_set (d : AList κ ν) (x y : κ) (v : ν) : y ∈ keys (set d x v) ↔ y = x ∨ y ∈ keys d := by
+  rw [← lookup_isSome_iff_mem_keys, ← lookup_isSome_iff_mem_keys, lookup_set]
+  by_cases h : y = x <;> simp [h]
+
+theorem length_keys (d : AList κ ν) : (keys d).length = d.length := by simp [keys]
+
 end Xdist.AList
